@@ -70,7 +70,7 @@ Statement: {p['statement']}
 
 Quantifier: {p['quantifier']['text']}
 
-## This is the FIFTH seeded change for this property
+## This is a FURTHER seeded change for this property
 
 Earlier changes already exist:
 {earlier}
